@@ -47,6 +47,9 @@ pub enum Step {
     Resave { slot: String, to: String, ty: String },
     /// write raw bytes under a storage key of this contract
     RawSet { key: String, val: Binary },
+    /// the handler itself panics (user code may; what the generated code does afterwards is
+    /// the question)
+    Panic { tag: String },
 }
 
 #[derive(Serialize, Deserialize, Clone, Debug, PartialEq, JsonSchema)]
@@ -541,10 +544,14 @@ pub fn run<G: Glue>(
                 );
             }
             Step::RawSet { key, val } => deps.storage.set(key.as_bytes(), val.as_slice()),
+            Step::Panic { tag } => panic!("{}{}", SCRIPTED_PANIC, tag),
         }
     }
     Ok(resp)
 }
+
+/// marker of a panic raised by a script step (not by generated code)
+pub const SCRIPTED_PANIC: &str = "scripted-panic:";
 
 /// The read-only part of a script, for query handlers that take one: ask the peers named by
 /// its `Query` steps through the typed querier helpers (nested queries), fail where it says so.
